@@ -6,7 +6,7 @@ use roto::{NoCtx, Runtime};
 
 use crate::jsonw::J;
 use crate::rg::ast::*;
-use crate::rg::generate::{Cfg, Gen, visit, visit_block};
+use crate::rg::generate::{Cfg, Gen, node_partial_diverge, visit_block};
 use crate::rg::interp::{self, Stop};
 use crate::rg::{print, shrink};
 use crate::rng::Rng;
@@ -179,83 +179,12 @@ pub fn run_program(rt: &Runtime<NoCtx>, prog: &Program, src: &str, inputs: &[Vec
 // stream and to compute finding signatures on minimised programs
 // ---------------------------------------------------------------------------
 
-fn is_heapy(prog: &Program, ty: &Ty) -> bool {
-    match ty {
-        Ty::Str | Ty::List(_) | Ty::Trk | Ty::TrkZ | Ty::Trk1 => true,
-        Ty::Opt(t) => is_heapy(prog, t),
-        Ty::Verdict(a, r) => is_heapy(prog, a) || is_heapy(prog, r),
-        Ty::Anon(fs) => fs.iter().any(|(_, t)| is_heapy(prog, t)),
-        Ty::Named(d, args) => match &prog.types[*d] {
-            TypeDecl::Record { fields, .. } => fields.iter().any(|(_, t)| is_heapy(prog, &t.subst(args))),
-            TypeDecl::Enum { variants, .. } => variants.iter().any(|(_, ts)| ts.iter().any(|t| is_heapy(prog, &t.subst(args)))),
-        },
-        _ => false,
-    }
-}
-
-fn expr_heapy(prog: &Program, e: &Expr) -> bool {
-    let mut h = false;
-    visit(e, &mut |x| h |= is_heapy(prog, &x.ty) || matches!(x.k, EK::FStr(_)));
-    h
-}
-
-fn diverges_inside(e: &Expr) -> bool {
-    let mut d = false;
-    visit(e, &mut |x| d |= matches!(x.k, EK::Ret(..) | EK::Try(_)));
-    d
-}
-
 pub fn patterns(prog: &Program) -> Vec<&'static str> {
     let mut out = Vec::new();
-    let mut while_cond = false;
-    let mut guard = false;
     let mut partial = false;
-    let mut on = |e: &Expr| match &e.k {
-        EK::While(c, _) if expr_heapy(prog, c) => while_cond = true,
-        EK::Match(_, arms) => {
-            for a in arms {
-                if let Some(g) = &a.guard
-                    && expr_heapy(prog, g)
-                {
-                    guard = true;
-                }
-            }
-        }
-        EK::Call(_, args) | EK::Host(_, args) | EK::Ctor(_, args) | EK::ListLit(args) => {
-            if args.len() > 0 && args.iter().any(diverges_inside) && (expr_heapy(prog, e)) {
-                partial = true;
-            }
-        }
-        EK::Method(r, _, args) => {
-            if args.iter().any(diverges_inside) && (expr_heapy(prog, e) || expr_heapy(prog, r)) {
-                partial = true;
-            }
-        }
-        EK::RecLit(_, fs) => {
-            if fs.iter().any(|(_, a)| diverges_inside(a)) && expr_heapy(prog, e) {
-                partial = true;
-            }
-        }
-        EK::Bin(_, a, b) => {
-            if diverges_inside(b) && expr_heapy(prog, a) {
-                partial = true;
-            }
-        }
-        EK::FStr(ps) => {
-            if ps.iter().any(|p| matches!(p, FPart::Expr(a) if diverges_inside(a))) {
-                partial = true;
-            }
-        }
-        _ => {}
-    };
+    let mut on = |e: &Expr| partial |= node_partial_diverge(prog, e);
     for f in &prog.fns {
         visit_block(&f.body, &mut on);
-    }
-    if while_cond {
-        out.push("while-cond-temp");
-    }
-    if guard {
-        out.push("guard-temp");
     }
     if partial {
         out.push("diverge-in-partial-construct");
@@ -288,8 +217,6 @@ impl Diff {
             // zero-sized tracked values are never cloned/dropped by compiled code
             // (known finding C03/zst-elided); the witnesses keep exercising it
             cfg.trkz = false;
-            cfg.avoid.while_cond_temps = true;
-            cfg.avoid.guard_temps = true;
             cfg.avoid.diverge_in_partial = true;
         }
         let mon = Monitors { result: true, log: true, ledger: true, alloc: true };
@@ -309,6 +236,18 @@ pub fn finding_class(kind: &str) -> &str {
 impl Family for Diff {
     fn n_cases(&self, args: &Args) -> u64 {
         if args.thorough() { 200_000 } else { 6_000 }
+    }
+
+    fn describe(&mut self, _k: u64, rng: &mut Rng, args: &Args) -> Option<J> {
+        let (cfg, _) = self.cfg(args);
+        let g = Gen::new(Rng::new(rng.next()), cfg);
+        let (prog, _) = g.program();
+        let layout = rng.next();
+        let n_inputs = if args.thorough() { 8 } else { 4 };
+        let inputs: Vec<J> = (0..n_inputs)
+            .map(|_| J::Str(conv::input_vector(rng, 24, 50).iter().map(|w| format!("{w:#x}")).collect::<Vec<_>>().join(" ")))
+            .collect();
+        Some(J::obj().set("source", print::print_program(&prog, Some(layout))).set("inputs", J::Arr(inputs)))
     }
 
     fn run(&mut self, _k: u64, rng: &mut Rng, args: &Args) -> CaseOut {
